@@ -110,7 +110,8 @@ MANIFEST_TEXT.update({
     "C06": {
         "level": "Bounded model checking over symbolic lifecycle paths with drop-counted payloads, CBMC's memory-leak check and "
                  "Kani's size-matched dealloc model: exactly-once drop, nothing leaked, borrowed things never dropped.",
-        "note": "Paths of <= 3 lifecycle operations; panics outside.",
+        "note": "Paths of <= 3 lifecycle operations; panics (unwinding) outside. One open known finding: with an owning context handle "
+                "the clone held by the never-dropped temporary wrapper of a borrowed wrapped return is leaked (same root cause as C07's).",
         "technique": BMC + " with memory-leak and dealloc-size checks",
     },
     "C07": {
